@@ -10,13 +10,19 @@ META = {
     "rule": "B1 closing-brace ownership: no consumption site other than a brace owner's own expect(`}`) can consume "
             "`}` while a `{..}` region is open on the call stack; B2 the top-level dispatcher restarts at every "
             "definition keyword and its fallback consumes exactly one token; B3 every brace owner's loop stops at "
-            "`}` and at end of input. One obligation per consumption site / owner / keyword.",
+            "`}` and at end of input; B4 no site that can run directly after a `}` consumed outside every brace region "
+            "(before the parser is back at the dispatcher) can consume a token that starts a definition (`@`, `pub`, "
+            "`opaque` or a dispatch keyword, all read from statement()/attributes()). One obligation per consumption "
+            "site / owner / keyword.",
     "explanation": "For damage that keeps a body's braces balanced and adds no opener, the only way the parser can "
                    "touch a token of a following definition is that a construct nested in the body consumes the `}` of "
                    "an enclosing construct. Engine P knows, for every call of bump/bump_with_error/eat/expect in every "
                    "reachable context, the set of kinds the consumed token may have and whether a brace owner's region "
-                   "is open on the stack; B1 is decided from that for all token sequences. This decides closing-brace "
-                   "ownership (a necessary condition), not the behaviour.",
+                   "is open on the stack; B1 is decided from that for all token sequences. When the body's owner gives up "
+                   "early (a definition keyword inside the body), the rest of the body is parsed as top-level items and its "
+                   "final `}` arrives with no region open; engine P marks that state and B4 requires that whatever consumes "
+                   "the next token is the dispatcher. This decides closing-brace ownership and the restart after a stray "
+                   "closer (necessary conditions), not the behaviour.",
     "not_decided": "that the reported error ranges lie inside the damaged region; isolation under damage that adds openers.",
     "trusted_base": ["rustc MIR", "engine P's leaf-primitive model (checked by C02/M)"],
     "assumptions": ["look-ahead beyond the current token is arbitrary"],
@@ -130,6 +136,41 @@ def run(F, res, tier):
     pre = [callee(t2) for bb2, t2 in st.calls() if st.dominates(bb2, b)]
     res.ob("B2", "statement/prefixes", "attributes and `pub` are consumed before the dispatch, so `pub fn`/`@external fn` restart too",
            "syntax::parser::attributes" in pre and PM.P + "eat" in pre, where=st.loc(), how="calls before dispatch: %s" % [p.rsplit("::", 1)[-1] for p in pre if p])
+
+    # ---- B4: a skipping loop that runs on after a stray `}` stops at the next definition's first token
+    defstart = set(arms)                       # kinds statement() dispatches to a definition parser
+    for bb2, t2 in st.calls():
+        if callee(t2) == PM.P + "eat" and st.dominates(bb2, b):
+            kk = FL.kind_of_operand(st, d, t2["args"][1])
+            if kk:
+                defstart.add(kk)               # optional `pub` prefix
+    at_fn = F.fn("syntax::parser::attributes")
+    da = FL.Defs(at_fn)
+    for bb2, t2 in at_fn.calls():
+        if callee(t2) == PM.P + "at":
+            kk = FL.kind_of_operand(at_fn, da, t2["args"][1])
+            if kk:
+                defstart.add(kk)               # attribute prefix `@`
+    res.floor("token kinds that start a top-level definition (dispatch arms, `pub`, `@`)", len(defstart), 7)
+    res.analysed["definition_start_kinds"] = sorted(defstart)
+    fb = [v for k2, v in R["consume_sites"].items() if v["fn"] == "syntax::parser::statement" and v["callee"] == "bump"]
+    res.ob("B4", "statement/fallback-takes-stray-closer",
+           "control: the dispatcher's fallback is seen consuming a `}` that no open region owns (the stray-closer tracking is alive)",
+           any("R_BRACE" in v["kinds"] for v in fb), where=st.loc(), how="fallback bump consumes %d kinds incl. `}`" % (len(fb[0]["kinds"]) if fb else 0))
+    n_after = 0
+    for key, v in sorted(R["consume_sites"].items()):
+        if not v["after_stray"]:
+            continue
+        n_after += 1
+        name = v["fn"].rsplit("::", 1)[-1]
+        bad = sorted(set(v["after_stray"]) & defstart)
+        res.ob("B4", "%s/%s%s/%s" % (name, v["callee"], ("(" + v["karg"] + ")") if v["karg"] else "", key.rsplit("|", 1)[-1]),
+               "directly after a `}` consumed outside every brace region (the end of a damaged body), and before the parser "
+               "is back at the dispatcher, this site never consumes a token that starts a definition",
+               not bad, where="crates/syntax/src/parser.rs:%d" % v["line"],
+               how=("may consume %d kinds there, none of %s" % (len(v["after_stray"]), sorted(defstart))) if not bad else
+               "consumes %s of the following definition; call chain %s" % (bad, v["stray_ctx"]))
+    res.analysed["sites_running_after_a_stray_closer"] = n_after
 
 
 def thorough(F, res):
